@@ -216,14 +216,29 @@ func VerifH_grpcweb() {
 // gRPC-web, transcoding, WebSocket upgrade) answers without a crash and without success, and
 // DropConn of an unknown connection reports false.
 func VerifH_entry_empty() {
-	mux, err := NewMux()
-	if err != nil {
-		vfFail("NewMux failed")
+	// with and without a stats handler; on an empty mux, and on a populated one asked for a method
+	// nobody registered
+	var opts []MuxOption
+	if vfBool() {
+		opts = append(opts, StatsOption(&fakeStats{}))
+		vfCover("with-stats")
 	}
-	vfCheck(!mux.DropConn(context.Background(), new(grpc.ClientConn)), "DropConn of an unknown connection on an empty mux did not report false")
+	var mux *Mux
+	method, path := "POST", "/vf.S/M0"
+	if vfBool() {
+		mux, _, _ = vfMuxAllFake(opts...)
+		path = "/vf.S/Nope"
+		vfCover("unknown-method")
+	} else {
+		m, err := NewMux(opts...)
+		if err != nil {
+			vfFail("NewMux failed")
+		}
+		mux = m
+		vfCheck(!mux.DropConn(context.Background(), new(grpc.ClientConn)), "DropConn of an unknown connection on an empty mux did not report false")
+	}
 	h := http.Header{}
 	major := 1
-	method, path := "POST", "/vf.S/M0"
 	switch vfChoice(4) {
 	case 0:
 		h["Content-Type"] = []string{"application/grpc"}
